@@ -28,6 +28,7 @@ func runC01(c *core.Ctx) {
 	h.leaderOnlyByMajority("C01.3 leader-by-majority")
 	h.candidateReleaseRetiresChannel("C01.3b stale-replies-not-counted")
 	h.failedConnNotReused("C01.3c failed-conn-not-reused")
+	h.pipelineRequestsAccounted("C01.3d pipeline-accounting")
 	c.Clause("C01.4 candidate persists (term+1, self) before requesting votes")
 	h.selfVoteBeforeCampaign("C01.4 self-vote-first")
 	c.Clause("C01.5 every site observing a higher term adopts it and steps down")
